@@ -522,10 +522,13 @@ def c17(tier):
     alpha = b'ab()[]{}*+?|\\x-^.09\x00\xff \x7f"'
     rb = [bytes(rnd.choice(alpha) for _ in range(rnd.randint(0, 14))) for _ in range(20000 if q else 600000)]
     merge(ck, common.pmap(rxc.judge_random_bytes, [(c, 'clang1') for c in chunks(rb, 5000)]))
+    dr = rxc.dangling_ranges(rnd, 600 if q else 6000)
+    merge(ck, common.pmap(rxc.judge_dangling, [(c, 'clang1') for c in chunks(dr, 150)]))
     merge(ck, common.pmap(ctor_reject_worker, ctor_reject_cases(rnd, 34 if q else 160)))
     ck.cov['rule'] = ('(a) strings broken in exactly the ways the property names (unbalanced group, unterminated set, dangling/empty repetition, empty alternative, leading quantifier, raw non-printable byte) '
                       'are fed to the real pattern parser, dfa_builder and dfa_size_analyzer through a bounds-monitoring buffer: all must be refused and nothing outside the pattern may be read; '
-                      '(b) arbitrary strings over the meta-characters: memory safety of the scan only (no verdict on acceptance); (c) generated programs with regex_term<bad>, regex::expr<bad>, rules naming '
+                      '(b) arbitrary strings over the meta-characters: memory safety of the scan only (no verdict on acceptance); (b2) sets whose last item is a range without an end character (`[a-]`, followed by text with another raw `]`): '
+                      'refused, or else the automaton read from memory must be the one of the reading in which the set ends at its first raw `]` (any other language is a matcher with an arbitrary meaning); (c) generated programs with regex_term<bad>, regex::expr<bad>, rules naming '
                       'undeclared terms/nonterminals, empty nonterminal names: must be rejected by the constant evaluator of g++ and clang++ and throw when constructed at run time; '
                       'distinct_nontrivial = distinct malformed strings / programs')
     ck.assumptions += ['must-reject classes are exactly those named by the property; other strings give no verdict', 'a read of the terminator position is counted (terminator_position_reads) but is in bounds for the cstring_buffer the library uses for patterns']
